@@ -15,15 +15,16 @@ UNITS = [
     Kani(M + 'c26_option_tags', fns=D, kind='bounded', bound='Optional(Bool), any input of <= 3 bytes', contract='option tag 0 -> None, 1 -> Some(inner), other -> BadInput; truncation -> UnexpectedEnd; consumed length exact', **K),
     Kani(M + 'c26_result_tags', fns=D, kind='bounded', bound='Result(Bool, Unit), any 2 bytes', contract='result tag 0 -> Ok(inner), 1 -> Err(inner), other -> BadInput', **K),
     Kani(M + 'c26_id_length_and_roundtrip', fns=SD, kind='bounded', bound='any input of <= 34 bytes', contract='Id: length byte must be 32 and 32 bytes must follow (else BadInput / UnexpectedEnd); the id is exactly those bytes and serializes back to them', **K),
+    Kani(M + 'c26_enum_membership', fns=D, kind='bounded', bound='enum with 2 variants, any input of <= 11 bytes', covers=1, cap_s=900, contract='Enum: only values listed in the definition are accepted, whatever the bytes', **K),
     Kani(M + 'c26_unit_and_never', fns=D, contract='Unit consumes nothing; Never is always rejected', **K),
 ]
 TRUSTED = ['postcard_core varint / bool codecs are compiled and executed as they are']
-ASSUMPTIONS = ['NOT covered: String/Bytes (UTF-8 / NUL checks — symbolic from_utf8 does not terminate in CBMC), Enum membership, nested structs, deserialize_struct / TrailingData '
+ASSUMPTIONS = ['NOT covered: String/Bytes (UTF-8 / NUL checks — symbolic from_utf8 does not terminate in CBMC), nested structs, deserialize_struct / TrailingData '
                '(StructDefs / field maps are BTreeMaps), and schemas beyond one level of nesting']
 EXPLANATION = ('Bounded stand-in: per-kind contracts for the scalar and one-level kinds over all values / all short inputs; the recursive and map-based part of the property is not covered.')
 MANIFEST = {
     'text': 'Bounded: round trip over all i64 and all 32-byte ids, exact tag / length rejection for Bool, Optional, Result, Id, Unit, Never on arbitrary short inputs, never panics. '
-            'Strings, bytes, enums, nested structs and trailing-data detection are not covered.',
+            'Strings, bytes, nested structs and trailing-data detection are not covered.',
     'note': 'Bounded stand-in (category other): scalar and one-level kinds only.',
     'technique': 'Kani bounded contract harnesses + CBMC',
 }
